@@ -121,6 +121,19 @@ class Engine:
         self.meta.create_all(self.conn)
         self.conn.commit()
         self._loaded = None
+        self._loads = 0
+        from sqlalchemy.schema import CreateTable
+
+        self._ddl = [(f'DROP TABLE IF EXISTS "{t}"', str(CreateTable(tab).compile(self.engine))) for t, tab in self.tables.items()]
+
+    #: DuckDB 1.5 crashed natively (segfault inside _duckdb) on outer joins with two inequality conditions over tables
+    #: that had gone through some hundred DELETE + INSERT cycles; freshly created tables never did: recreate them regularly
+    RECREATE_EVERY = 20
+
+    def _recreate(self) -> None:
+        for drop, create in self._ddl:
+            self.conn.exec_driver_sql(drop)
+            self.conn.exec_driver_sql(create)
 
     def load(self, data: dict) -> None:
         """Replace the content of all catalog tables."""
@@ -128,8 +141,13 @@ class Engine:
         if key == self._loaded:
             return
         self._loaded = None
+        self._loads += 1
+        fresh = self.name == 'duckdb' and self._loads % self.RECREATE_EVERY == 0
+        if fresh:
+            self._recreate()
         for name, table in self.tables.items():
-            self.conn.execute(table.delete())
+            if not fresh:
+                self.conn.execute(table.delete())
             rows = data.get(name) or []
             if rows:
                 kinds = dict(TABLES[name])
